@@ -16,6 +16,7 @@ PUNCT = {"EQUAL": "=", "SEMICOLON": ";", "LSQB": "[", "RSQB": "]", "LBRACE": "{"
 import os as _os
 
 DEPTH = 4 if _os.environ.get("VERIF_TIER") == "thorough" else 3
+NAME_BOUND = 26 if _os.environ.get("VERIF_TIER") == "thorough" else 20
 
 
 def in_set(ch, chars):
@@ -89,7 +90,7 @@ def generate(sweep: Sweep, parts=None):
             elif T == "LABEL":
                 if not want("word"):
                     continue
-                lm = sweep.model(terms, 14)          # names up to 13 characters (keywords longer than that cannot collide)
+                lm = sweep.model(terms, NAME_BOUND)  # names up to NAME_BOUND - 1 characters
                 s = lm.s
                 wl = z3.Int(f"awl_{id(lm)}")
                 prem = _name_premise(lm, wl)
